@@ -4,7 +4,7 @@ Copies a confirmed seeded defect into /verif/seeded/<PID>-<x>/."""
 import json, os, shutil, sys
 d, x, caught = sys.argv[1], sys.argv[2], sys.argv[3]
 note = sys.argv[4] if len(sys.argv) > 4 else ''
-pid = os.path.basename(d.rstrip('/'))
+pid = os.environ.get('PID') or os.path.basename(d.rstrip('/'))
 out = '/verif/seeded/%s-%s' % (pid, x)
 os.makedirs(out, exist_ok=True)
 shutil.copy(os.path.join(d, 'patch-%s.diff' % x), os.path.join(out, 'patch.diff'))
